@@ -60,7 +60,18 @@ def table_of(h):
 
 
 def table_inv(d):
-    """the table has exactly the 11 applicable conditions; every entry is a handler code"""
+    """quantifier-free table invariant used by the handler contracts: the 11 applicable conditions are
+    present (and NO_ERROR / the non-fault codes are absent); every entry is a handler code."""
+    absent = [c for c in CC if c not in FAULT_CONDITIONS]
+    return z3.And(
+        *[d.dom[int(c)] for c in FAULT_CONDITIONS],
+        *[z3.Not(d.dom[int(c)]) for c in absent],
+        *[z3.Or(*[d.val[int(c)] == int(f) for f in FH]) for c in FAULT_CONDITIONS],
+    )
+
+
+def table_inv_exact(d):
+    """the table has exactly the 11 applicable conditions (quantified form, used for the mib contracts)"""
     k = z3.Int("ti!k")
     return z3.And(
         d.wf(),
